@@ -3,7 +3,9 @@ Spec: Kernels.tla (configuration lattice with the fast/generic dispatch predicat
 instances: linear / polynomial / constant expressions with Scale / Sum / Product and active_dims, PolynomialKernelGrad, RBF
 derivative ratios, piecewise polynomials, Newton-Girard sums, ArcKernel with an activity indicator on quarter-turn phases,
 Index / Multitask / LCM kernels; part "args": the constructor-argument lattice - every optional documented constructor argument
-of every kernel over its non-default value classes; DistinctOK: no multi-valued parameter with two equal entries).
+of every kernel over its non-default value classes; DistinctOK: no multi-valued parameter with two equal entries; part "dims": every argument / convention that names a DIMENSION
+of a stacked tensor - dim of sum_interaction_terms over every batch position, last_dim_is_batch of Kernel.__call__ / covar_dist, the kernel dimension of
+Additive / Product structure and Newton-Girard kernels - with 0..2 batch axes and pairwise distinct axis sizes in every order; exact kind "sitdim").
 Replay: every lattice cell through the real kernel against the documented formula (checks/c05_ref.py), both code paths of the
 two-path kernels; TLC's exact rationals through the real kernels.  Level "other": reference-formula comparison on a
 TLC-enumerated lattice; only the rational parts are decided exactly."""
@@ -125,6 +127,16 @@ def gen_instances(rnd, thorough):
             e = dict(op="lin", v=_qs(rnd, 2), ad=[]) if (k + t) % 2 == 0 else dict(op="poly", off=_q(rnd, ((1, 2), (3, 2), (1, 3), (1, 1))), p=rnd.randint(1, 2), ad=[])
             terms.append(dict(B=_mat(rnd, T, r), v=_qs(rnd, T), e=e))
         out.append(dict(kind="mtask", T=T, terms=terms, X1=_mat(rnd, n1, 2), X2=_mat(rnd, n2, 2), I1=[rnd.randrange(T) for _ in range(n1)], I2=[rnd.randrange(T) for _ in range(n2)]))
+    for t in range(12 * mult):          # sum_interaction_terms on a stack with a batch axis: sizes B, D, N, M pairwise distinct, the stacked axis before / after the batch axis
+        D = 2 + t % 3
+        lo, hi = [v for v in range(1, 6) if v < D], [v for v in range(1, 6) if v > D]
+        B = rnd.choice(lo if t % 2 == 0 else hi)                       # fewer / more batch elements than base covariances
+        n1, n2 = rnd.sample([v for v in range(1, 6) if v not in (D, B)], 2)
+        smd = [0, D + 2, D, max(1, D - 1), 1][(t // 4) % 5 if t < 20 else rnd.randrange(5)]      # None, above D, D, D - 1, 1
+        halves = D <= 3                                                 # power sums up to z^D: integers only for D = 4 (TLC's integers are 32 bit)
+        out.append(dict(kind="sitdim", X1=_mat(rnd, n1, D), X2=_mat(rnd, n2, D), v=_q(rnd, ((1, 2), (1, 1), (3, 2)) if halves else ((1, 1), (2, 1))),
+                        vb=_qs(rnd, B, ((0, 1), (1, 2), (1, 1), (3, 2), (2, 1), (5, 2)) if halves else ((0, 1), (1, 1), (2, 1), (3, 1), (4, 1))),
+                        spos=0 if t % 4 in (0, 3) else 1, smd=smd))
     for k, inst in enumerate(out):
         inst["id"] = k
     return out
@@ -171,7 +183,7 @@ def _worker(item):
     out = []
     for c in item["cases"]:
         fn = dict(cell=run_cell, expr=run_expr, polygrad=run_polygrad, rbfratio=run_rbfratio, pp=run_pp, ng=run_ng, layout=run_layout, special=run_special, arcmask=run_arcmask,
-                  mtask=run_mtask)[c["kind"]]
+                  mtask=run_mtask, dim=run_dim, sitdim=run_sitdim)[c["kind"]]
         r = fn(torch, gpytorch, c)
         out.extend(r if isinstance(r, list) else [r])
     return out
@@ -471,6 +483,42 @@ def run_ng(torch, gpytorch, c):
     return out
 
 
+def run_sitdim(torch, gpytorch, c):
+    """sum_interaction_terms on the exact stack B x D x N x M (dim=-3) / D x B x N x M (dim=-4) against TLC's explicit sums over index subsets"""
+    from gpytorch.utils.sum_interaction_terms import sum_interaction_terms
+    inst, exp = c["inst"], c["exp"]
+    D = torch.float64
+    X1, X2 = torch.tensor(inst["X1"], dtype=D), torch.tensor(inst["X2"], dtype=D)
+    nd, nb = X1.shape[-1], len(inst["vb"])
+    off = torch.tensor([float(fr(inst["v"]) + fr(w)) for w in inst["vb"]], dtype=D)
+    covars = torch.stack([X1[:, t:t + 1] @ X2[:, t:t + 1].T for t in range(nd)]) + off[:, None, None, None]          # B x D x N x M
+    dim = -3
+    if inst["spos"] == 0:
+        covars, dim = covars.transpose(0, 1).contiguous(), -4                                                          # D x B x N x M
+    md = inst["smd"] or None
+    desc = "sum_interaction_terms(covars %s, max_degree=%s, dim=%d), base covariances x_k y_k + %s + %s, X1=%s X2=%s" % (
+        list(covars.shape), md, dim, fr(inst["v"]), [str(fr(w)) for w in inst["vb"]], inst["X1"], inst["X2"])
+    res = dict(key=["sitdim", inst], ok=True, nontrivial=True, case=c)
+    if inst["id"] % 6 == 0:
+        res["sample"] = dict(exact_instance=desc, orders=exp["deg"], first_batch_element=[[str(fr(v)) for v in row] for row in exp["K"][0]])
+    if covars.shape[dim] != nd or len({nb, nd, X1.shape[0], X2.shape[0]}) != 4:
+        return dict(machinery="C05 sitdim instance with colliding axis sizes: %s" % desc)
+    tail = "dim%d-md=%s" % (dim, "none" if md is None else "over" if md > nd else "D" if md == nd else "below")
+    ok, got = core.guarded(lambda: _dense(sum_interaction_terms(covars, max_degree=md, dim=dim)))
+    if not ok:
+        res.update(ok=False, sig="C05/sum_interaction_terms/raises/exact-%s" % tail, detail="%s: raised %s" % (desc, got))
+        return res
+    want = torch.stack([fmat(torch, Mb) for Mb in exp["K"]])
+    if list(got.shape) != list(want.shape):
+        res.update(ok=False, sig="C05/sum_interaction_terms/shape/exact-%s" % tail, detail="%s: result has shape %s instead of %s" % (desc, list(got.shape), list(want.shape)))
+        return res
+    ok, why = core.close(got, want, 1e-12, 1e-12)
+    if not ok:
+        res.update(ok=False, sig="C05/sum_interaction_terms/value/exact-%s" % tail,
+                   detail="%s: differs from the explicit sum over index subsets up to order %d evaluated exactly by TLC: %s" % (desc, exp["deg"], why))
+    return res
+
+
 def _nonneg(x):
     return (x >= 0).to(x.dtype)
 
@@ -616,6 +664,125 @@ def run_layout(torch, gpytorch, c):
     return res
 
 
+def dim_desc(cell, exp):
+    return "%s[%s] batch=%s (kernel batch %s) K=%d N=%d M=%s mode=%s%s%s" % (
+        cell["tgt"], cell["fam"], list(exp["b"]), list(exp["kbatch"]), exp["K"], exp["N"], exp["M"] if cell["mode"] == "two" else "-", cell["mode"],
+        " covars%s dim=%d" % (list(exp["inshape"]), exp["dim"]) if cell["tgt"] == "sit" else "", "" if cell["md"] == "-" else " max_degree=%s" % (exp["mdarg"] or None))
+
+
+def run_dim(torch, gpytorch, c):
+    """a cell of part "dims" of Kernels.tla: the stack of K base covariances / one-dimensional kernels along the NAMED dimension, all axis sizes pairwise
+    distinct, against the explicit sum over index subsets of the documented one-dimensional kernels"""
+    import warnings
+    from checks import c05_ref as R
+    cell, exp, seed = c["cell"], c["exp"], c["seed"]
+    tgt, fam, mode, md = cell["tgt"], cell["fam"], cell["mode"], cell["md"]
+    D = torch.float64
+    K = gpytorch.kernels
+    g = torch.Generator().manual_seed(seed)
+    b, kd, n, m, kb = list(exp["b"]), exp["K"], exp["N"], exp["M"], list(exp["kbatch"])
+    desc = dim_desc(cell, exp) + " seed=%d" % seed
+    res = dict(key=["dim", cell], ok=True, nontrivial=True, case=c)
+    tail = "%s-nb%dkb%d-%s%s%s" % (fam, cell["nb"], cell["kb"], mode, "-dim%d" % exp["dim"] if tgt == "sit" else "", "" if md == "-" else "-md=" + md)
+    sizes = b + [kd, n] + ([m] if mode == "two" else [])
+    if len(set(sizes)) != len(sizes):
+        return dict(machinery="C05 dims cell with two equal axis sizes %s: %s" % (sizes, desc))
+    runs = [None]
+    if tgt == "sit":
+        from gpytorch.utils.sum_interaction_terms import sum_interaction_terms
+        from linear_operator import to_linear_operator
+        covars = R.U(g, 0.2, 1.4, *exp["inshape"])
+        dim = exp["dim"]
+        if covars.shape[dim] != kd:
+            return dict(machinery="C05 dims cell: covars%s has %d entries along dim=%d, the cell says K=%d" % (list(covars.shape), covars.shape[dim], dim, kd))
+        kw = {}
+        if md != "none":
+            kw["max_degree"] = exp["mdarg"]
+        if dim != -3 or cell["rot"] % 2 == 1:                               # the documented default dim=-3 is also exercised by omission
+            kw["dim"] = dim
+        want = R.subsets_sum(list(covars.unbind(dim)), exp["deg"])
+
+        def call():
+            return _dense(sum_interaction_terms(covars.clone() if fam == "tensor" else to_linear_operator(covars.clone()), **kw))
+    else:
+        x1 = R.U(g, -1.0, 1.0, *b, n, kd)
+        x2 = R.U(g, -1.0, 1.0, *b, m, kd) if mode == "two" else None
+        xr = x1 if x2 is None else x2
+        if tgt == "cdist":
+            want = torch.stack([(x1[..., :, None, t] - xr[..., None, :, t]).abs() for t in range(kd)], dim=-3)
+            if fam == "sqdist":
+                want = want ** 2
+
+            def call():
+                return _dense(K.RBFKernel().to(D).covar_dist(x1, xr, diag=mode == "diag", last_dim_is_batch=True, square_dist=fam == "sqdist"))
+        else:
+            if tgt == "ngadd":
+                P = R.sample_params("ngadd", kd, True, kb, g, dict(arg="max_degree", val=md))
+                P["base"] = fam
+                if fam == "rq":
+                    P["balpha"] = R.UD(g, 0.5, 2.5, *kb, 1)
+                if P["R"] != exp["deg"] or (P["Rarg"] or 0) != exp["mdarg"]:
+                    return dict(machinery="C05 dims cell: max_degree %r / %r orders instead of the spec's %r / %r: %s" % (P["Rarg"], P["R"], exp["mdarg"], exp["deg"], desc))
+                tree = dict(t="leaf", fam="ngadd", d=kd, ard=True, bs=kb, ad=None, P=P)
+                terms = R.dim_terms(fam, {"ls": P["ls"], "alpha": P.get("balpha")}, x1, xr)
+                want = R.subsets_sum(terms, P["R"], P["o"])
+                runs = [torch.float32, torch.float64]                       # NewtonGirardAdditiveKernel allocates its work tensors in the default dtype
+            else:
+                lf = "rbf" if fam == "scale" else fam
+                ard = lf not in ("polynomial", "constant", "cosine")
+                leaf = dict(t="leaf", fam=lf, d=kd, ard=ard, bs=kb, ad=None, P=R.sample_params(lf, kd, ard, kb, g))
+                terms = R.dim_terms(lf, leaf["P"], x1, xr)
+                if tgt == "ldb":
+                    tree = leaf
+                    want = torch.stack(terms, dim=-3)
+                    if fam == "scale":
+                        tree = dict(t="scale", a=leaf, bs=kb, s=R.UD(g, 0.5, 2.0, *kb))
+                        want = tree["s"][..., None, None, None] * want
+                else:
+                    tree = dict(t=tgt, a=leaf, D=kd)
+                    want = sum(terms) if tgt == "addstruct" else R._prod(terms)
+            dup = R.tree_dups(tree)
+            if dup:
+                return dict(machinery="C05 dims cell with equal entries in a multi-valued parameter (%s): %s" % (dup, desc))
+            kw = {"last_dim_is_batch": True} if tgt == "ldb" else {}
+
+            def call():
+                with warnings.catch_warnings():
+                    warnings.simplefilter("ignore")
+                    kernel = R.build_tree(K, tree)
+                    if mode == "diag":
+                        return _dense(kernel(x1, diag=True, **kw))
+                    return _dense(kernel(x1, **kw) if x2 is None else kernel(x1, x2, **kw))
+        if mode == "diag":
+            want = want.diagonal(dim1=-1, dim2=-2)
+    if not torch.isfinite(want).all():
+        return dict(machinery="C05 reference not finite for %s" % desc)
+    if list(want.shape) != list(exp["shape"]):
+        return dict(machinery="C05 dims cell: the reference has shape %s, the spec says %s: %s" % (list(want.shape), list(exp["shape"]), desc))
+    for dflt in runs:
+        prev = torch.get_default_dtype()
+        try:
+            if dflt is not None:
+                torch.set_default_dtype(dflt)
+            ok, got = core.guarded(call)
+        finally:
+            torch.set_default_dtype(prev)
+        if not ok:
+            res.update(ok=False, sig="C05/dims/%s/raises/%s" % (tgt, tail), detail="%s: raised %s" % (desc, got))
+            return res
+        if list(got.shape) != list(exp["shape"]):
+            res.update(ok=False, sig="C05/dims/%s/shape/%s" % (tgt, tail), detail="%s: result has shape %s, documented %s" % (desc, list(got.shape), list(exp["shape"])))
+            return res
+        ok, why = core.close(got, want, *((2e-6, 1e-9) if dflt is torch.float32 else (1e-7 if fam == "sm" else RTOL, ATOL)))
+        if not ok:
+            res.update(ok=False, sig="C05/dims/%s/value/%s" % (tgt, tail),
+                       detail="%s: differs from the explicit sum over index subsets of the %d documented one-dimensional terms along the named dimension: %s" % (desc, kd, why))
+            return res
+    if seed % 97 == 0:
+        res["sample"] = dict(dims_cell=desc, shape=list(want.shape), first_entry=float(want.reshape(-1)[0]))
+    return res
+
+
 def run_special(torch, gpytorch, c):
     from checks import c05_ref as R
     D = torch.float64
@@ -688,7 +855,12 @@ def run(ck):
                "dispatch predicate selects; each cell is evaluated through the real kernel on seeded float64 inputs and compared with the documented formula (derivative kernels: autograd "
                "derivatives of the base formula, entry by entry); args cells = every (kernel, optional documented constructor argument, value class incl. every non-default class) x ARD x batch x "
                "mode of the constructor-argument lattice of Kernels.tla (delta_func, base kernels, eps, power, num_mixtures, num_deltas, num_angular_weights, vocab_size, max_degree, rank, "
-               "distance_function, active_dims, every *_constraint and *_prior), same replay; every parameter tensor has pairwise distinct entries (asserted per cell); exact = rational "
+               "distance_function, active_dims, every *_constraint and *_prior), same replay; every parameter tensor has pairwise distinct entries (asserted per cell); dims cells = "
+               "every (target in sum_interaction_terms on Tensor / LinearOperator, covar_dist, kernel(last_dim_is_batch=True) for 11 kernels, AdditiveStructure / ProductStructure / "
+               "NewtonGirardAdditive kernels) x number of batch axes 0..2 x how many of them the kernel parameters carry x position of the stacked axis (sum_interaction_terms: "
+               "every dim in -(3 + nb) .. -3) x max_degree class (None, 1, 2, K-1, K, K+2) x mode (n1 != n2, x2=None, diag) x rotation of the size assignment (all axis sizes "
+               "pairwise distinct, every ordered pair of axes in increasing size in some cell: DimsOK), compared with the explicit sum over index subsets of the documented "
+               "one-dimensional terms along the NAMED dimension and with the documented output shape; exact = rational "
                "instances evaluated by TLC; non-trivial = every lattice cell (distinct by cell) and every exact instance with a composite expression / derivative / d >= 2")
     ck.assumptions = [
         "level 'other': the numeric dimension is sampled (seeded inputs and parameters), only the configuration lattice and the rational instances are exhaustive / exact",
@@ -715,6 +887,10 @@ def run(ck):
         "the randn_weights buffer read back from the kernel; DistributionalInputKernel: exp(-distance_function(x1, x2) / lengthscale) for user-supplied distance functions",
         "IndexKernel B B^T + diag(var); MultitaskKernel K_XX (x) K_TT with the task index fastest; LCMKernel the sum of its terms; MultitaskKernel with a batched task covariance AND batched inputs "
         "raises (recorded under C08) and is not part of the lattice; NewtonGirardAdditiveKernel(max_degree) defaults to num_dims and is capped at num_dims (both documented)",
+        "dims cells: sum_interaction_terms is documented for D x N x N stacks; it is replayed on N x M stacks as well (the property quantifies over n1 != n2 and the function is "
+        "entrywise), `dim` over the BATCH positions only (docstring: 'the batch dimension containing the base covariance matrices', negative); last_dim_is_batch=True is read as documented "
+        "in Kernel.__call__: K one-dimensional kernels (dimension t with entry t of every ARD parameter) stacked as ... x K x N x M (... x K x N with diag); the kernel batch shape is a "
+        "suffix of the input batch shape",
         "not replayed: GridKernel / GridInterpolationKernel / InducingPointKernel (approximations, C09 / C02), MultiDeviceKernel (CUDA), KeOps kernels (excluded by the quantifier), the deprecated "
         "param_transform / batch_size arguments",
     ]
@@ -724,12 +900,12 @@ def run(ck):
     half = len(insts) // 2
     jobs = []
     for name, part, ii, inv in (("lattice", "lattice", (), ["LatticeOK"]), ("layout", "layout", (), ["LayoutOK"]), ("exactA", "exact", insts[:half], ["ExactOK", "DistinctOK"]),
-                                ("exactB", "exact", insts[half:], ["ExactOK", "DistinctOK"]), ("ppcode", "ppcode", pps, ["PPCodeOK"]), ("args", "args", (), ["ArgsOK"])):
+                                ("exactB", "exact", insts[half:], ["ExactOK", "DistinctOK"]), ("ppcode", "ppcode", pps, ["PPCodeOK"]), ("args", "args", (), ["ArgsOK"]), ("dims", "dims", (), ["DimsOK"])):
         mod, cfg = write_mc(wd, name, part, ii, inv)
         jobs.append(((mod, cfg), dict(name=PID + "/" + name, dump=True, check=False, workers=2, timeout=1500, coverage=False)))
     rs = tlc.run_many(jobs, parallel=3)
     labels = ("configuration lattice + dispatch predicate", "derivative-kernel layout", "exact rational instances A", "exact rational instances B", "piecewise polynomial: code transcription vs documentation",
-              "constructor-argument lattice")
+              "constructor-argument lattice", "named-dimension lattice (pairwise distinct axis sizes)")
     for lab, r in zip(labels, rs):
         ck.add_tlc(r, "Kernels " + lab)
         if r.violation:
@@ -752,6 +928,22 @@ def run(ck):
         ck.vacuous("constructor-argument lattice: %d cells, (kernel, argument) pairs without a non-default value: %s" % (len(argcells), sorted(pairs - nondefault)))
     if not any(c["fam"] == "arc" and c["arg"] == "delta_func" and c["val"] != "ones" for c in argcells):
         ck.vacuous("no cell builds ArcKernel with a user-supplied delta_func")
+    dimcells = [(dict(st["c"]), _plain(st["out"])) for st in rs[6].states()]
+    dimcells.sort(key=lambda ce: sorted((k, str(v)) for k, v in ce[0].items()).__repr__())
+    dim_targets = {c["tgt"] for c, _ in dimcells}
+    if len(dimcells) < 2000 or dim_targets != {"sit", "cdist", "ldb", "addstruct", "prodstruct", "ngadd"}:
+        ck.vacuous("named-dimension lattice: %d cells, targets %s" % (len(dimcells), sorted(dim_targets)))
+    for tgt in sorted(dim_targets):      # every pair of axes of every target occurs in both size orders (also an invariant of the spec: DimsOK)
+        ords = set()
+        for c, e in dimcells:
+            if c["tgt"] == tgt:
+                ax = dict(zip(["b1", "b2"], e["b"]), K=e["K"], N=e["N"], **({"M": e["M"]} if c["mode"] == "two" else {}))
+                ords |= {(a, b) for a in ax for b in ax if ax[a] < ax[b]}
+        miss = [(a, b) for a in ("b1", "b2", "K", "N", "M") for b in ("b1", "b2", "K", "N", "M") if a != b and (a, b) not in ords]
+        if miss:
+            ck.vacuous("named-dimension lattice: target %s never has size(%s) < size(%s)" % (tgt, miss[0][0], miss[0][1]))
+    if not any(c["tgt"] == "sit" and e["dim"] != -3 and e["inshape"][-3] < e["K"] and c["md"] in ("none", "over") for c, e in dimcells):
+        ck.vacuous("no sum_interaction_terms cell stacks more base covariances along dim != -3 than dimension -3 holds")
     layout = [(dict(st["c"]), _plain(st["out"])) for st in rs[1].states()]
     if len(layout) != 54:
         ck.vacuous("layout lattice has %d cells instead of 54" % len(layout))
@@ -775,6 +967,9 @@ def run(ck):
     for k, cell in enumerate(cells + argcells):
         for s in range(seeds):
             cases.append(dict(kind="cell", cell=cell, seed=(ck.seed * 7919 + k) * 4 + s))
+    for k, (cell, exp) in enumerate(dimcells):
+        for s in range(seeds):
+            cases.append(dict(kind="dim", cell=cell, exp=exp, seed=(ck.seed * 7919 + len(cells) + len(argcells) + k) * 4 + s))
     fams = {c["fam"] for c in cells}
     two = [c for c in cells if c["fam"] in ("rbf", "matern05", "matern15", "matern25")]
     for fam in ("rbf", "matern05", "matern15", "matern25"):
@@ -795,7 +990,9 @@ def run(ck):
                neutral_pairs=len({(c["fam"], c["arg"]) for c in argcells if c["effect"] == "neutral"}), formula_pairs=len({(c["fam"], c["arg"]) for c in argcells if c["effect"] == "formula"}),
                non_default_cells=sum(1 for c in argcells if c["val"] != c["dflt"]))
     ck.extra["constructor_argument_pairs"] = ["%s.%s in {%s}" % (f, a, ", ".join(sorted({c["val"] for c in argcells if (c["fam"], c["arg"]) == (f, a)}))) for f, a in sorted(pairs)]
-    ck.section("exact", rational_instances=len(insts), **{k: sum(1 for i in insts if i["kind"] == k) for k in ("expr", "polygrad", "rbfratio", "pp", "ng", "arcmask", "mtask")}, layout_cells=len(layout))
+    ck.section("named_dimensions", cells=len(dimcells), **{t: sum(1 for c, _ in dimcells if c["tgt"] == t) for t in sorted(dim_targets)},
+               sit_cells_dim_not_default=sum(1 for c, e in dimcells if c["tgt"] == "sit" and e["dim"] != -3), max_batch_axes=max(c["nb"] for c, _ in dimcells))
+    ck.section("exact", rational_instances=len(insts), **{k: sum(1 for i in insts if i["kind"] == k) for k in ("expr", "polygrad", "rbfratio", "pp", "ng", "arcmask", "mtask", "sitdim")}, layout_cells=len(layout))
     ck.extra["trusted_base"] = ["checks/c05_ref.py (documented formulas in plain torch / mpmath)", "torch.autograd (reference derivatives)", "TLC + Rational.tla / LinAlg.tla"]
 
 
